@@ -37,21 +37,20 @@ def setnNumF (o : Opt) (v : Val) (index : Nat) (fail : Option Nat) : FOut :=
       if r.ok then ⟨r.opt, true, r.allocs⟩ else ⟨r.opt, false, r.allocs⟩
     else ⟨.mk o1.info { o1.flags with modified := true } o1.subs (listSet o1.vals index v) o1.comment, true, 0⟩
 
-/-- `cfg_opt_setnstr`: the cell first (zero-filled, i.e. a NULL string), then `strdup` of the value -/
+/-- `cfg_opt_setnstr`: the value is copied FIRST (request 0 when it is not NULL; fix F45: it may be a string the
+option owns), then the cell is found or added (`cfg_opt_getval`: index test, defaults dropped, `cfg_addval`) -/
 def setnStrF (o : Opt) (s : Option Bytes) (index : Nat) (fail : Option Nat) : FOut :=
-  if index != 0 && !o.flags.list && !o.flags.multi then ⟨o, false, 0⟩
+  let pre : Nat := if s.isSome then 1 else 0
+  if pre == 1 && fail == some 0 then ⟨o, false, 1⟩                              -- strdup failed: nothing touched
+  else if index != 0 && !o.flags.list && !o.flags.multi then ⟨o, false, pre⟩    -- refused; the copy is released
   else
     let o1 := (dropDefaults o).1
     let needCell := index ≥ o1.vals.length
-    let r : FOut := if needCell then addvalF o1 (.str none) fail else ⟨o1, true, 0⟩
-    if !r.ok then r
+    let r : FOut := if needCell then addvalF o1 (.str s) (shiftFail fail pre) else ⟨o1, true, 0⟩
+    if !r.ok then ⟨r.opt, false, pre + r.allocs⟩                                -- no cell: the copy is released
     else
       let idx := if needCell then o1.vals.length else index
-      match s with
-      | none => ⟨.mk r.opt.info { r.opt.flags with modified := true } r.opt.subs (listSet r.opt.vals idx (.str none)) r.opt.comment, true, r.allocs⟩
-      | some b =>
-        if shiftFail fail r.allocs == some 0 then ⟨r.opt, false, r.allocs + 1⟩      -- strdup failed: the cell keeps what it had
-        else ⟨.mk r.opt.info { r.opt.flags with modified := true } r.opt.subs (listSet r.opt.vals idx (.str (some b))) r.opt.comment, true, r.allocs + 1⟩
+      ⟨.mk r.opt.info { r.opt.flags with modified := true } r.opt.subs (listSet r.opt.vals idx (.str s)) r.opt.comment, true, pre + r.allocs⟩
 
 /-- `cfg_opt_setcomment` -/
 def setcommentF (o : Opt) (c : Bytes) (fail : Option Nat) : FOut :=
